@@ -330,6 +330,7 @@ pub fn fan_out(cx: &mut Ctx, prop: &str, owns: Owns, columns: u32, lines: u32, s
             c.ops = cand.ops.clone();
             c
         };
+        cx.journal_case(&mk_case);
         let scr = base.fork_screen();
         let mut sys = Sys::from_screen(scr, if path == Path::Parser { PK::Chars } else { PK::None });
         let mut r = Ok(());
